@@ -583,3 +583,7 @@ def _r15_4b(res, P, cfgname):
         else:
             res.ok("R15.4b", cfgname, key, nontrivial=bool(need), sample=dict(function=f["p"], fields=[("%s.%s" % (v, fl)) if v else fl for v, fl in need], whole_write_blocks=len(whole)))
     res.floor("R15.4b", cfgname, n, 5, "hand-written clone_from impls")
+
+
+LEVEL = LEVEL + ' Also (R15.4b) hand-written clone_from impls assign every field on every path, (R15.5) mirrored / ownership-variant sibling kernels agree, (R15.6) the rhs_sign factor of the shared add/sub kernels multiplies only rhs-derived values, (R19.2, shared) no step inside a debug assertion.'
+TECHNIQUE = 'sibling agreement over all operator impl bodies: canonical kernel signatures, effect summaries of assign forms, operand-order and pure-adapter rules, mirror comparison of sibling kernels, value-root dataflow for the sign factor, clone_from completeness'
